@@ -7,18 +7,18 @@ def cchar(b):
     return "char(%d)" % (b if b < 128 else b - 256)
 
 
-def tu_source(g, gid=None, dflt=(), limits=None, ctx=(), postprec=(), defines=(), noval=()):
+def tu_source(g, gid=None, dflt=(), limits=None, ctx=(), postprec=(), defines=(), noval=(), nvterms=()):
     """g: gram.Grammar.  Terms are typed char terms with the observing functor, every rule gets RuleF{index}."""
     gid = gid or g.name
     o = ['#define %s' % d for d in defines] + ['#include "rt.hpp"', 'using namespace ctpg;', 'using vh::Node;', 'namespace G {',
-         'using TT = typed_term<char_term, vh::TermF>;']
+         'using TT = typed_term<char_term, vh::TermF>;', 'using TN = typed_term<char_term, vh::TermFN>;      // value type no_type']
     for i, n in enumerate(g.nts):
         o.append('nterm<%s> n%d("%s");' % ('no_type' if i in noval else 'Node', i, 'N%d' % i))      # noval: value-less nonterminals
     for i, t in enumerate(g.ts):
         # declarations as a user writes them: default arguments are used whenever precedence / associativity are default
         pr, asc = g.tprec.get(t, 0), g.tassoc.get(t, 0)
         ct = 'char_term(%s)' % cchar(ord(t)) if (pr, asc) == (0, 0) else ('char_term(%s, %d)' % (cchar(ord(t)), pr) if asc == 0 else 'char_term(%s, %d, associativity(%d))' % (cchar(ord(t)), pr, asc))
-        o.append('TT t%d(%s, vh::TermF{%d});' % (i, ct, i))
+        o.append('TN t%d(%s, vh::TermFN{%d});' % (i, ct, i) if i in nvterms else 'TT t%d(%s, vh::TermF{%d});' % (i, ct, i))
     ntid = {n: i for i, n in enumerate(g.nts)}
     tid = {t: i for i, t in enumerate(g.ts)}
     rl = []
@@ -44,7 +44,7 @@ def tu_source(g, gid=None, dflt=(), limits=None, ctx=(), postprec=(), defines=()
     return '\n'.join(o) + '\n'
 
 
-def tla_json(g, gid=None, dflt=(), ctx=(), noval=()):
+def tla_json(g, gid=None, dflt=(), ctx=(), noval=(), nvterms=()):
     """Same JSON shape as gram.HostGrammar.tla_json, for an exact (generated TU) grammar."""
     gid = gid or g.name
     ntid = {n: i for i, n in enumerate(g.nts)}
@@ -65,7 +65,7 @@ def tla_json(g, gid=None, dflt=(), ctx=(), noval=()):
         'id': gid, 'nnt': nnt, 'nt': nt, 'root': ntid[g.root], 'rules': rules, 'used': [1] * len(rules),
         'tprec': [g.tprec.get(t, 0) for t in g.ts], 'tassoc': [g.tassoc.get(t, 0) for t in g.ts],
         'tbytes': [ord(t) for t in g.ts], 'tnames': tn, 'ntnames': names_nt, 'ruletext': texts,
-        'lex': 'chars', 'lexterms': [], 'dflt': sorted(dflt), 'ctxr': sorted(ctx), 'noval': sorted(noval), 'deflimits': True, 'lexobs': False, 'obsT': True, 'obsC': True, 'alpha': [ord(t) for t in g.ts],
+        'lex': 'chars', 'lexterms': [], 'dflt': sorted(dflt), 'ctxr': sorted(ctx), 'noval': sorted(noval), 'nvterms': sorted(nvterms), 'deflimits': True, 'lexobs': False, 'obsT': True, 'obsC': True, 'alpha': [ord(t) for t in g.ts],
         'uterms': list(range(nt)),
     }
 
@@ -130,7 +130,7 @@ def lex_tla_json(gid, terms, shape='list'):
     return {'id': gid, 'nnt': 1, 'nt': nt, 'root': 0, 'rules': rules, 'used': [1] * len(rules),
             'tprec': [0] * nt, 'tassoc': [0] * nt, 'tbytes': [0] * nt, 'tnames': tn, 'ntnames': ['N0', '##'], 'ruletext': texts,
             'lex': 'ref', 'lexterms': [{'kind': t[0], 'data': ([t[1]] if t[0] == 'C' else list(t[1]))} for t in terms],
-            'dflt': [], 'ctxr': [], 'noval': [], 'deflimits': True, 'lexobs': False, 'obsT': True, 'obsC': True, 'alpha': [], 'uterms': list(range(nt))}
+            'dflt': [], 'ctxr': [], 'noval': [], 'nvterms': [], 'deflimits': True, 'lexobs': False, 'obsT': True, 'obsC': True, 'alpha': [], 'uterms': list(range(nt))}
 
 
 # ---------------------------------------------------------------- custom lexer (C18)
